@@ -292,6 +292,7 @@ def finish(ctx, level, obligations, discharged, details, rule, extra_cov=None):
     os.makedirs(os.path.join(VERIF, 'evidence'), exist_ok=True)
     with open(os.path.join(VERIF, 'evidence', ctx.prop + '.json'), 'w') as fh:
         json.dump(ev, fh, indent=1)
+    ctx.violations.sort(key=lambda v: not v[2])
     for k in ctx.known:
         print(k)
     for what, replay, found in ctx.violations:
